@@ -10,3 +10,4 @@ import BalmProofs.Props.C08
 #print axioms Balm.Impl.greedyLoop_valid
 #print axioms Balm.Impl.regenLoop_small
 #print axioms Balm.Impl.solverOK_take
+#print axioms Balm.Impl.checkNfvs_sound
